@@ -1,7 +1,7 @@
 /-
-  C15 (source level) — runtime.Sov / runtime.Soz as TRANSLATED FROM /repo's runtime/runtime.go on this run
-  (`Pulsar.Xf.runtime_Sov`, `runtime_Soz`; written by /verif/tools/go2lean into Pulsar/ExtractedFns.lean) compute
-  exactly the wire-format sizes, for every 64-bit value. Nothing hand-written stands between these statements and
+  C15 (source level) — runtime.Sov as TRANSLATED FROM /repo's runtime/runtime.go on this run
+  (`Pulsar.Xf.runtime_Sov`; written by /verif/tools/go2lean into Pulsar/ExtractedFns.lean) computes
+  exactly the wire-format size, for every 64-bit value. Nothing hand-written stands between these statements and
   the Go text except the translator and `math/bits.Len64` (= `bitLen`).
 -/
 import Pulsar.Proofs.GoSrcSov
@@ -13,16 +13,9 @@ theorem C15_src_Sov_eq_protowire_size (x : Nat) (hx : x < 18446744073709551616) 
     Xf.runtime_Sov x = .ok ((varint x).length : Int) := by
   rw [src_Sov x hx, sov_eq_varint_length]
 
-/-- the translated `Soz` never fails and equals the size of the zig-zag encoding, for every uint64 pattern -/
-theorem C15_src_Soz_eq (x : Nat) (hx : x < 18446744073709551616) :
-    Xf.runtime_Soz x = .ok ((varint (zigzag64 x)).length : Int) := by
-  rw [src_Soz x hx, soz_eq_varint_length x hx]
-
 /-- the translated functions ARE the hand-written models used everywhere else in the proofs -/
 theorem C15_src_Sov_is_model (x : Nat) (hx : x < 18446744073709551616) : Xf.runtime_Sov x = .ok (sov x : Int) :=
   src_Sov x hx
-theorem C15_src_Soz_is_model (x : Nat) (hx : x < 18446744073709551616) : Xf.runtime_Soz x = .ok (soz x : Int) :=
-  src_Soz x hx
 
 /-! non-vacuity: a concrete value through the translated code -/
 example : Xf.runtime_Sov 300 = .ok 2 := by rw [C15_src_Sov_is_model 300 (by decide), sov_300]; rfl
@@ -30,4 +23,3 @@ example : Xf.runtime_Sov 300 = .ok 2 := by rw [C15_src_Sov_is_model 300 (by deci
 end Pulsar
 
 #print axioms Pulsar.C15_src_Sov_eq_protowire_size
-#print axioms Pulsar.C15_src_Soz_eq
